@@ -448,6 +448,23 @@ func (f *Footer) segmentLocs() (SegmentLocs, *segmentStack) {
 	return slocs, ss
 }
 
+// childrenChanged returns true when the footer has a child collection
+// that the segment stack does not have, or has as another incarnation,
+// at any depth: that child collection was dropped since.
+func (f *Footer) childrenChanged(ss *segmentStack) bool {
+	if f == nil {
+		return false
+	}
+	for cName, childFooter := range f.ChildFooters {
+		childSegStack, exists := ss.childSegStacks[cName]
+		if !exists || childSegStack.incarNum != childFooter.incarNum ||
+			childFooter.childrenChanged(childSegStack) {
+			return true
+		}
+	}
+	return false
+}
+
 // childFileRef returns the FileRef of the first persisted segment
 // found amongst the child footers, recursively, or nil when none of
 // them has a persisted segment.
